@@ -22,5 +22,21 @@ out = ["# Seeded breaking changes and which checks catch them\n",
        "| change | property | check | verdict | detected by | what it changes | needs to manifest | confirmation |", "|---|---|---|---|---|---|---|---|"]
 for r in rows:
     out.append("| " + " | ".join(r) + " |")
+# harmless refactorings
+hrows = []
+for f in sorted(glob.glob(os.path.join(V, "harmless", "*", "meta.json"))):
+    m = json.load(open(f)); name = os.path.basename(os.path.dirname(f))
+    r = m.get("check_result", "")
+    verdict = "green (no alarm)" if r.startswith("green") else "FALSE ALARM" if r.startswith("FALSE ALARM") else r[:30]
+    hist = "; ".join("before repair of the check: " + h.get("before_repair", "")[:160].replace("|", "/") for h in m.get("history", []))
+    hrows.append((name, m.get("property", name[:3]), verdict, (m.get("summary") or "").replace("\n", " ").replace("|", "/")[:200], hist))
+out += ["", "## Behaviour-preserving refactorings (harmless/): the checks must stay green\n",
+        "Written by independent sub-agents from the property text only (tools/refactor_prompt.py), each builds and passes the",
+        "touched packages' tests; run through the quick check with tools/eval_ref.sh. A false alarm found here was repaired in the",
+        "check (never by loosening a right check): all were positional translator ties (`funcints`/`funcstrings` of a whole",
+        "function), repaired with the translator filters `match` / `cmp` / `within` / `follow` / `uniq`.\n",
+        "| refactoring | property | verdict | what it changes | history |", "|---|---|---|---|---|"]
+for r in hrows:
+    out.append("| " + " | ".join(r) + " |")
 open(os.path.join(V, "seeded", "RESULTS.md"), "w").write("\n".join(out) + "\n")
 print(len(rows), "rows")
